@@ -33,6 +33,12 @@ Proof.
   - exists 0. split; [cbn; lia|reflexivity].
 Qed.
 
+Lemma all_true_nth l n : all_true l = true -> n < length l -> nth n l false = true.
+Proof.
+  revert n; induction l as [|b l IH]; intros n H Hn; [cbn in Hn; lia|].
+  cbn in H. apply andb_true_iff in H as [Hb Hl]. destruct n; [exact Hb|]. apply IH; [exact Hl|cbn in Hn; lia].
+Qed.
+
 Lemma map2_seq_id {X} (f : nat -> X -> X) : forall (y : list X) s d,
   (forall r, r < length y -> f (s + r) (nth r y d) = nth r y d) ->
   map2 f (seq s (length y)) y = y.
@@ -468,5 +474,38 @@ Section Walk.
     spec_slp op unit V eos (lm_rows lm n s) s.
   Proof.
     intros -> Hf. rewrite lm_rows_app. apply (spec_slp_closed e s _ _ _ i Hf). apply lm_rows_length.
+  Qed.
+
+  (* sample stacking: a walk that ended early is padded with rows of eos up to the longest walk
+     of the batch of samples; re-scoring the padded paths still gives the walk's log-probabilities *)
+  Theorem stacked_logprob_eq_walk mi draws st e k :
+    eos = Some e ->
+    (forall d, In d draws -> draw_ok d) -> draws <> [] ->
+    walk op unit lm eos N mi draws = Some st ->
+    (k = 0 \/ all_true (wfin st) = true) ->
+    dist_log_prob op unit lm V eos (paths_of N (wy st ++ repeat (repeat e N) k)) = wlp st.
+  Proof.
+    intros He Hd Hne Hw Hk.
+    destruct (walk_correct mi draws st Hd Hw) as (Hy & _ & Hl3 & _ & _ & Hcol).
+    assert (Hlf : length (wfin st) = N).
+    { unfold walk in Hw.
+      destruct (walk_loop_inv mi draws [] (init_state unit N) st inv_init Hd
+                  (fun m _ => Nat.le_0_l m) Hw) as ((_ & _ & _ & H & _) & _). exact H. }
+    rewrite Hy. rewrite dist_log_prob_spec.
+    - unfold paths_of. rewrite map_length, seq_length.
+      rewrite (list_eq_map_nth unit (wlp st)), Hl3.
+      rewrite map2_map_r, map2_same. apply map_ext_in. intros n Hn. apply in_seq in Hn.
+      destruct (Hcol n ltac:(lia)) as (_ & Hlp & _ & Hfin). rewrite Hlp.
+      rewrite column_app.
+      assert (Hpad : column 0%Z n (repeat (repeat e N) k) = repeat e k).
+      { unfold column. clear -Hn. induction k as [|k IH]; [reflexivity|]. cbn [repeat map].
+        rewrite IH. f_equal. apply nth_repeat'. lia. }
+      rewrite Hpad. destruct Hk as [->|Hall].
+      + cbn [repeat]. rewrite app_nil_r. reflexivity.
+      + pose proof (all_true_nth (wfin st) n Hall ltac:(lia)) as Hf.
+        apply Hfin in Hf as (e' & i & He' & Hfe). rewrite He in He'. injection He' as <-.
+        apply (spec_slp_padded e n _ _ i He Hfe).
+    - intros s Hin. unfold paths_of in Hin. apply in_map_iff in Hin as (n & <- & _).
+      destruct draws; [congruence|]. discriminate.
   Qed.
 End Walk.
